@@ -226,7 +226,11 @@ func judgeSubscribe(r *vlib.Run, mode string, trial int, rng *rand.Rand, reqs []
 	out, pi, entry, culprit := runSubscribe(r, rng, reqs, feed)
 	r.Eval(1)
 	sl := reqs[0].GetSubscribe()
-	r.Count("subscribe_mode_"+sl.GetMode().String(), 1)
+	if _, known := pb.SubscriptionList_Mode_name[int32(sl.GetMode())]; known {
+		r.Count("subscribe_mode_"+sl.GetMode().String(), 1)
+	} else {
+		r.Count("subscribe_mode_unknown_enum_value", 1)
+	}
 	if pi != nil {
 		r.Count("subscribe_panics", 1)
 		class := fallbackClass(pi.Kind, culprit)
